@@ -1,6 +1,8 @@
 """Generators of the batch workstream: abstract tables, rows, batch operation sequences."""
 from __future__ import annotations
 
+import re
+
 from .batch_impl import TYPE_TOKENS, aff_of_token, default_value
 
 INTS = ["INTEGER", "BIGINT", "SMALLINT"]
@@ -122,7 +124,16 @@ def gen_table(rng, big=False):
         fks.append({"name": None if rng.random() < 0.3 else "fk_%d" % j, "cols": [c], "rtable": rt, "rcols": ["id"]})
     for j in range(rng.choice([0, 1, 1, 2])):
         k = rng.sample([c["name"] for c in cols], min(len(cols), rng.choice([1, 1, 2])))
-        indexes.append({"name": "ix_%s_%d" % (name[:6], j), "cols": k, "unique": rng.random() < 0.2})
+        ix = {"name": "ix_%s_%d" % (name[:6], j), "cols": k, "unique": rng.random() < 0.2}
+        if intcols and rng.random() < 0.3:
+            # partial index (plain or unique): CREATE INDEX ... WHERE <predicate over an integer column>
+            wc = rng.choice(intcols)
+            form = rng.choice(["> 0", "= 1", ">= -5", "IS NOT NULL"]) if not ix["unique"] else rng.choice(["> 0", "= 1", ">= -5"])
+            ix["where"] = "%s %s" % (wc, form)
+            ix["where_mentions"] = [wc]
+            m = re.match(r"(>=|>|=) (-?\d+)$", form)
+            ix["where_pred"] = {"col": wc, "op": m.group(1), "k": int(m.group(2))} if m else None
+        indexes.append(ix)
     # columns declared with a schema type carrying a named CHECK: Boolean / Enum(create_constraint=True, name=...)
     stypes = {}
     if rng.random() < 0.35:
@@ -151,7 +162,8 @@ def gen_rows(rng, t, n):
             break
         row = []
         for c in t["cols"]:
-            in_check = any(c["name"] == k["pred"]["col"] for k in t["checks"] if k["pred"])
+            in_check = any(c["name"] == k["pred"]["col"] for k in t["checks"] if k["pred"]) or \
+                any(c["name"] in i.get("where_mentions", ()) for i in t["indexes"])
             in_u = any(c["name"] in u for u in ucols)
             if c["name"] in t.get("stypes", {}):
                 st = t["stypes"][c["name"]]
@@ -196,6 +208,7 @@ def gen_ops(rng, t, n=None, wild=0.08):
     idxs = [i["name"] for i in t["indexes"]]
     ops = []
     checked = {k["pred"]["col"] for k in t["checks"] if k["pred"]}   # current names of columns some CHECK mentions
+    checked |= {c for i in t["indexes"] for c in i.get("where_mentions", ())}   # ... or a partial index predicate
     retyped = set()
     idx0 = {c["name"]: i for i, c in enumerate(t["cols"])}
     has_null = {c["name"]: any(r[idx0[c["name"]]] is None for r in t["rows"]) for c in t["cols"]}
@@ -236,6 +249,10 @@ def gen_ops(rng, t, n=None, wild=0.08):
             ops.append(o)
         elif k == "drop_column" and len(cur) > 1:
             c = rng.choice(cur[1:] if rng.random() < 0.9 else cur)
+            # keep one original column: with none left SQLAlchemy cannot compile the INSERT..SELECT (KeyError inside the
+            # try; not modelled)
+            if c in key and key[c] in idx0 and sum(1 for x in cur if key.get(x) in idx0) <= 1:
+                continue
             if rng.random() < wild:
                 ops.append({"op": "drop_column", "name": "nope"})
                 continue
@@ -327,8 +344,13 @@ def gen_ops(rng, t, n=None, wild=0.08):
             cs = rng.sample(cur, min(len(cur), rng.choice([1, 1, 2])))
             by_new = rng.random() < 0.1
             nm = "ix_new%d" % len(ops) if rng.random() < 0.93 or not idxs else rng.choice(idxs)
-            ops.append({"op": "create_index", "name": nm, "cols": [c if by_new else key[c] for c in cs],
-                        "unique": rng.random() < 0.25})
+            o = {"op": "create_index", "name": nm, "cols": [c if by_new else key[c] for c in cs], "unique": rng.random() < 0.25}
+            ic = [c for c in cur if tys.get(c) in INTS and c not in retyped and all_int.get(key.get(c, c), True) and c in key and key[c] == c]
+            if ic and rng.random() < 0.2:
+                wc = rng.choice(ic)
+                o["where"], o["where_mentions"], o["where_pred"] = "%s > 0" % wc, [wc], {"col": wc, "op": ">", "k": 0}
+                checked.add(wc)
+            ops.append(o)
         elif k == "drop_index":
             if idxs and rng.random() > wild:
                 ops.append({"op": "drop_index", "name": idxs.pop(rng.randrange(len(idxs)))})
